@@ -179,7 +179,7 @@ func init() {
 		Gen: func(r *Rng, tier string, emit func(Case)) {
 			n := 100
 			if tier == "thorough" {
-				n = 4000
+				n = 1200
 			}
 			for i := 0; i < n; i++ {
 				emit(Case{Op: fmt.Sprintf("c09.file seed=%d", r.U64()%1000000000), Tags: []string{"file"}, NonTrivial: true})
